@@ -1,5 +1,8 @@
 mod decompression;
 
+#[cfg(ten0_serde_avro_fast_verif)]
+pub use decompression::verif_h4;
+
 use crate::{
 	de::{
 		read::{Read, ReadSlice},
@@ -361,6 +364,8 @@ where
 						decompression_buffer,
 						block_size,
 					)?;
+					#[cfg(ten0_serde_avro_fast_verif)]
+					let codec_data = codec_data.verif_h4_rebuffer(block_size);
 					self.reader_state = ReaderState::InBlock {
 						codec_data,
 						n_objects_in_block,
